@@ -259,6 +259,18 @@ func exhaustiveC14(thorough bool, emit func(C14Case) bool) {
 			}
 		}
 	}
+	// Every byte before and after valid sequences of 0 to 7 bases (a foreign byte at either end of
+	// an input whose length is, or is not, a multiple of three: "ACG\n", "\tACGTA").
+	for b := 0; b < 256; b++ {
+		for n := 0; n <= 7; n++ {
+			body := []byte("acGTTGca")[:n]
+			for _, s := range [][]byte{append(bytes.Clone(body), byte(b)), append([]byte{byte(b)}, body...), append(append([]byte{byte(b)}, body...), byte(b))} {
+				if !emit(C14Case{Kind: "translate", Seq: s}) {
+					return
+				}
+			}
+		}
+	}
 	// Every pair of bytes in two codon positions (includes every valid two-byte UTF-8 sequence).
 	for a := 0; a < 256; a++ {
 		for b := 0; b < 256; b++ {
